@@ -313,13 +313,6 @@ func c02Case(w *core.Worker, i int) {
 		hdr = append(hdr, fmt.Sprintf("c%d", c+1))
 		pos = append(pos, fmt.Sprint(22*(c+1)))
 	}
-	if ncols >= 3 && r.P(25) {
-		// two columns whose names differ only in letter case (column names are compared without regard to case when they
-		// are referenced, but they are written as they are)
-		pr := [][2]string{{"Name", "name"}, {"id", "ID"}, {"qty", "Qty"}, {"KEY", "key"}}[r.Intn(4)]
-		hdr[1], hdr[2] = pr[0], pr[1]
-		w.Count("tables_with_column_names_differing_in_case_only", 1)
-	}
 	d.Positions = "[" + strings.Join(pos, ", ") + "]"
 	probe := c02Hostile[r.Intn(len(c02Hostile))]
 	var rows [][]*string
@@ -510,6 +503,34 @@ func c02Case(w *core.Worker, i int) {
 		if created {
 			compared++
 		}
+	}
+	// path 2b: two tables written by ONE process whose column names differ only in letter case (c1.. and C1..): each file
+	// carries its own spelling
+	if created && nrows > 0 && !d.NoHeader && i%3 == 0 {
+		var up []string
+		for _, h := range hdr {
+			up = append(up, strings.ToUpper(h))
+		}
+		fa, fb := "two_a."+d.ext(), "two_b."+d.ext()
+		args = append(csvqArgs("-q"), d.writeArgs()...)
+		two := core.RunProc(core.ProcOpts{Dir: dir, Args: append(args, fmt.Sprintf("CREATE TABLE `%s` AS SELECT * FROM %s; CREATE TABLE `%s` (%s) AS SELECT * FROM %s;", fa, srcName, fb, strings.Join(up, ", "), srcName)), Timeout: 60 * time.Second})
+		if two.Code == 0 {
+			for _, f := range []struct {
+				file string
+				want []string
+			}{{fa, hdr}, {fb, up}} {
+				h, _, msg := readBack(f.file)
+				bb, _ := os.ReadFile(filepath.Join(dir, f.file))
+				if msg != "" {
+					viol("unreadable-after-write", "two tables in one session", f.file+": "+msg, bb)
+				} else if strings.Join(h, ",") != strings.Join(f.want, ",") {
+					viol("header", "two tables in one session", fmt.Sprintf("%s was created with the columns %v and re-imports with %v", f.file, f.want, h), bb)
+				}
+			}
+			w.Count("sessions_writing_two_tables_with_names_differing_in_case", 1)
+		}
+		_ = os.Remove(filepath.Join(dir, fa))
+		_ = os.Remove(filepath.Join(dir, fb))
 	}
 	// path 3: INSERT .. SELECT into the existing file of this dialect, COMMIT; then UPDATE one cell: dialect preserved
 	if created && nrows > 0 && !d.NoHeader {
